@@ -19,6 +19,22 @@
 #include <cds/algo/bitop.h>
 #include <cds/algo/int_algo.h>
 #include <cds/algo/split_bitstring.h>
+#include <cassert>
+// the portable C bit operations of cds/details/bitop_generic.h, compiled a second time with none of the
+// cds_bitop_*_DEFINED macros set (the first inclusion above is shadowed by the inline-asm variants)
+#undef CDSLIB_DETAILS_BITOP_GENERIC_H
+#undef cds_bitop_msb32_DEFINED
+#undef cds_bitop_msb32nz_DEFINED
+#undef cds_bitop_msb64_DEFINED
+#undef cds_bitop_msb64nz_DEFINED
+#undef cds_bitop_lsb32_DEFINED
+#undef cds_bitop_lsb32nz_DEFINED
+#undef cds_bitop_lsb64_DEFINED
+#undef cds_bitop_lsb64nz_DEFINED
+namespace generic {
+#include <cds/details/bitop_generic.h>
+}
+namespace gp = generic::cds::bitop::platform;
 
 typedef unsigned long long u64;
 typedef long long i64;
@@ -59,10 +75,10 @@ static std::vector<Unary> unaries;
 #define UN(NAME, W, EXPR, REFOK, REFEXPR, RESU) unaries.push_back(Unary{NAME, W, [](u64 x) -> i64 { return (i64)(EXPR); }, \
         [](u64 x, i64& r) { if (!(REFOK)) return false; r = (i64)(REFEXPR); return true; }, RESU})
 
-struct Unary;
 static void register_more();
 static void list_more();
 static void more_sweeps(bool ref, u64 seed, bool thorough, u64 part, u64 nparts);
+static int run_lines(const char* in, const char* outp);
 
 static void register_all()
 {
@@ -79,16 +95,71 @@ static void register_all()
     REV("bit_reversal.muldiv64_u64", 64, muldiv::muldiv64((uint64_t)x));
     REV("bit_reversal.muldiv_u32", 32, muldiv()((uint32_t)x));
     REV("bit_reversal.muldiv_u64", 64, muldiv()((uint64_t)x));
+    // generic C versions (translated and proved), compiled from cds/details/bitop_generic.h
+    UN("bitop.isPow2_32", 32, gp::isPow2_32((uint32_t)x), true, ref_pow2(x), false);
+    UN("bitop.isPow2_64", 64, gp::isPow2_64(x), true, ref_pow2(x), false);
+    UN("bitop.msb32", 32, gp::msb32((uint32_t)x), true, ref_msb(x), false);
+    UN("bitop.msb64", 64, gp::msb64(x), true, ref_msb(x), false);
+    UN("bitop.msb32nz", 32, gp::msb32nz((uint32_t)x), true, ref_msb(x) - 1, false);
+    UN("bitop.msb64nz", 64, gp::msb64nz(x), true, ref_msb(x) - 1, false);
+    UN("bitop.lsb32", 32, gp::lsb32((uint32_t)x), true, ref_lsb(x), false);
+    UN("bitop.lsb64", 64, gp::lsb64(x), true, ref_lsb(x), false);
+    UN("bitop.lsb32nz", 32, gp::lsb32nz((uint32_t)x), true, ref_lsb(x) - 1, false);
+    UN("bitop.lsb64nz", 64, gp::lsb64nz(x), true, ref_lsb(x) - 1, false);
+    UN("bitop.rbo32", 32, (u64)gp::rbo32((uint32_t)x), true, ref_rev(x, 32), true);
+    UN("bitop.rbo64", 64, (u64)gp::rbo64(x), true, ref_rev(x, 64), true);
+    UN("bitop.sbc32", 32, gp::sbc32((uint32_t)x), true, ref_pop(x), false);
+    UN("bitop.sbc64", 64, gp::sbc64(x), true, ref_pop(x), false);
+    UN("bitop.zbc32", 32, gp::zbc32((uint32_t)x), true, 32 - ref_pop(x), false);
+    UN("bitop.zbc64", 64, gp::zbc64(x), true, 64 - ref_pop(x), false);
+    // the public API: on amd64 MSB/LSB/MSBnz/LSBnz resolve to the inline-asm bsr/bsf variants, which are NOT
+    // translated; the model rows of the same name are the generic C versions.  *nz require x != 0.
+    namespace bo = cds::bitop;
+    typedef bo::details::BitOps<4> B4; typedef bo::details::BitOps<8> B8;
+    UN("bitop.BitOps4_MSB", 32, B4::MSB((uint32_t)x), true, ref_msb(x), false);
+    UN("bitop.BitOps8_MSB", 64, B8::MSB(x), true, ref_msb(x), false);
+    UN("bitop.BitOps4_LSB", 32, B4::LSB((uint32_t)x), true, ref_lsb(x), false);
+    UN("bitop.BitOps8_LSB", 64, B8::LSB(x), true, ref_lsb(x), false);
+    UN("bitop.BitOps4_MSBnz", 32, (x ? B4::MSBnz((uint32_t)x) : -1), x != 0, ref_msb(x) - 1, false);
+    UN("bitop.BitOps8_MSBnz", 64, (x ? B8::MSBnz(x) : -1), x != 0, ref_msb(x) - 1, false);
+    UN("bitop.BitOps4_LSBnz", 32, (x ? B4::LSBnz((uint32_t)x) : -1), x != 0, ref_lsb(x) - 1, false);
+    UN("bitop.BitOps8_LSBnz", 64, (x ? B8::LSBnz(x) : -1), x != 0, ref_lsb(x) - 1, false);
+    UN("bitop.BitOps4_SBC", 32, B4::SBC((uint32_t)x), true, ref_pop(x), false);
+    UN("bitop.BitOps8_SBC", 64, B8::SBC(x), true, ref_pop(x), false);
+    UN("bitop.BitOps4_ZBC", 32, B4::ZBC((uint32_t)x), true, 32 - ref_pop(x), false);
+    UN("bitop.BitOps8_ZBC", 64, B8::ZBC(x), true, 64 - ref_pop(x), false);
+    UN("bitop.BitOps4_RBO", 32, (u64)B4::RBO((uint32_t)x), true, ref_rev(x, 32), true);
+    UN("bitop.BitOps8_RBO", 64, (u64)B8::RBO(x), true, ref_rev(x, 64), true);
+    UN("bitop.MSB_u32", 32, bo::MSB((uint32_t)x), true, ref_msb(x), false);
+    UN("bitop.MSB_u64", 64, bo::MSB((unsigned long)x), true, ref_msb(x), false);
+    UN("bitop.LSB_u32", 32, bo::LSB((uint32_t)x), true, ref_lsb(x), false);
+    UN("bitop.LSB_u64", 64, bo::LSB((unsigned long)x), true, ref_lsb(x), false);
+    UN("bitop.MSBnz_u32", 32, (x ? bo::MSBnz((uint32_t)x) : -1), x != 0, ref_msb(x) - 1, false);
+    UN("bitop.MSBnz_u64", 64, (x ? bo::MSBnz((unsigned long)x) : -1), x != 0, ref_msb(x) - 1, false);
+    UN("bitop.LSBnz_u32", 32, (x ? bo::LSBnz((uint32_t)x) : -1), x != 0, ref_lsb(x) - 1, false);
+    UN("bitop.LSBnz_u64", 64, (x ? bo::LSBnz((unsigned long)x) : -1), x != 0, ref_lsb(x) - 1, false);
+    UN("bitop.SBC_u32", 32, bo::SBC((uint32_t)x), true, ref_pop(x), false);
+    UN("bitop.SBC_u64", 64, bo::SBC((unsigned long)x), true, ref_pop(x), false);
+    UN("bitop.ZBC_u32", 32, bo::ZBC((uint32_t)x), true, 32 - ref_pop(x), false);
+    UN("bitop.ZBC_u64", 64, bo::ZBC((unsigned long)x), true, 64 - ref_pop(x), false);
+    UN("bitop.RBO_u32", 32, (u64)bo::RBO((uint32_t)x), true, ref_rev(x, 32), true);
+    UN("bitop.RBO_u64", 64, (u64)bo::RBO((unsigned long)x), true, ref_rev(x, 64), true);
+    // cds/algo/int_algo.h (log2floor goes through the asm MSBnz in the real build)
+    namespace be = cds::beans;
+    UN("int_algo.log2floor", 64, (u64)be::log2floor((size_t)x), true, (x ? ref_msb(x) - 1 : 0), true);
+    UN("int_algo.log2ceil", 64, (u64)be::log2ceil((size_t)x), true, (x <= 1 ? 0 : ref_msb(x - 1)), true);
+    UN("int_algo.floor2", 64, (u64)be::floor2((size_t)x), true, (x ? 1ULL << (ref_msb(x) - 1) : 1ULL), true);
+    UN("int_algo.ceil2", 64, (u64)be::ceil2((size_t)x), x <= (1ULL << 63), (x <= 1 ? 1ULL : 1ULL << ref_msb(x - 1)), true);
+    UN("int_algo.is_power2", 64, be::is_power2((size_t)x), true, ref_pow2(x), false);
+    UN("int_algo.log2", 64, (u64)be::log2((size_t)x), true, (ref_pow2(x) ? ref_msb(x) - 1 : 0), true);
     register_more();
 }
 
-static void register_more() {}
-static void list_more() {}
-static void more_sweeps(bool, u64, bool, u64, u64) {}
+#include "sweep_more.h"
 
 // ------------------------------------------------------------------------------------------------
 // structured inputs
-static std::vector<u64> inputs(int w, u64 seed, bool thorough)
+static std::vector<u64> inputs(int w, u64 seed, bool thorough, bool light)
 {
     std::vector<u64> v;
     u64 mask = w == 64 ? ~0ULL : ((1ULL << w) - 1);
@@ -107,13 +178,14 @@ static std::vector<u64> inputs(int w, u64 seed, bool thorough)
     }
     for (u64 i = 0; i < 256; ++i)                    // every byte value in every byte position
         for (int p = 0; p < w; p += 8) v.push_back((i << p) & mask);
-    for (u64 i = 0; i < 65536; ++i) {                // all 16-bit values, low and high half
+    for (u64 i = 0; i < 65536; ++i) {                // all 16-bit values, low and high half (wrappers: every 8th)
+        if (light && !thorough && i % 8) continue;
         v.push_back(i);
         if (w == 32) v.push_back(i << 16);
         else if (i % 16 == 0 || thorough) { v.push_back(i << 16); v.push_back(i << 32); v.push_back(i << 48); }
     }
     Rng r(seed * 1000003ULL + (u64)w);
-    u64 nr = thorough ? 2000000 : 40000;
+    u64 nr = thorough ? 2000000 : (light ? 5000 : 20000);
     for (u64 i = 0; i < nr; ++i) {
         u64 x = r.next();
         switch (r.below(4)) {                        // uniform, sparse, dense, short
@@ -132,6 +204,7 @@ int main(int argc, char** argv)
     if (argc < 2) { fprintf(stderr, "usage: see the head of sweep.cpp\n"); return 2; }
     std::string mode = argv[1];
     register_all();
+    if (mode == "lines") return run_lines(argv[2], argv[3]);
     if (mode == "list") { for (auto& u : unaries) printf("%s %d\n", u.name, u.w); list_more(); return 0; }
     if (mode == "full32") {
         u64 part = strtoull(argv[2], 0, 10), nparts = strtoull(argv[3], 0, 10);
@@ -143,7 +216,7 @@ int main(int argc, char** argv)
             for (u64 x = lo; x < hi; ++x) {
                 i64 e; if (!u.ref(x, e)) continue;
                 i64 o = u.real(x); ++n;
-                if (o != e && bad++ < 5) { fprintf(out, "MISMATCH %s ", u.name); put_u(x); fprintf(out, " "); put_s(e); fprintf(out, " "); put_s(o); fprintf(out, "\n"); }
+                if (o != e && bad++ < 5) { fprintf(out, "MISMATCH %s ", u.name); put_u(x); fprintf(out, " | "); if (u.res_u64) put_u((u64)e); else put_s(e); fprintf(out, " | "); if (u.res_u64) put_u((u64)o); else put_s(o); fprintf(out, "\n"); }
             }
             fprintf(out, "REFCOUNT %s %llu %llu\n", u.name, n, bad);
         }
@@ -158,7 +231,9 @@ int main(int argc, char** argv)
     bool ref = mode == "ref";
     u64 k = 0;
     for (auto& u : unaries) {
-        std::vector<u64> in = inputs(u.w, seed, thorough);
+        const char* dot = strchr(u.name, '.');
+        bool light = !strncmp(u.name, "bitop.", 6) && dot && dot[1] >= 'A' && dot[1] <= 'Z';   // thin wrappers of the public API
+        std::vector<u64> in = inputs(u.w, seed, thorough, light);
         u64 n = 0, bad = 0;
         for (u64 x : in) {
             if (k++ % nparts != part) continue;
@@ -166,7 +241,7 @@ int main(int argc, char** argv)
             if (ref) {
                 i64 e; if (!u.ref(x, e)) continue;
                 ++n;
-                if (o != e && bad++ < 5) { fprintf(out, "MISMATCH %s ", u.name); put_u(x); fprintf(out, " "); put_s(e); fprintf(out, " "); put_s(o); fprintf(out, "\n"); }
+                if (o != e && bad++ < 5) { fprintf(out, "MISMATCH %s ", u.name); put_u(x); fprintf(out, " | "); if (u.res_u64) put_u((u64)e); else put_s(e); fprintf(out, " | "); if (u.res_u64) put_u((u64)o); else put_s(o); fprintf(out, "\n"); }
             } else {
                 fprintf(out, "%s ", u.name); put_u(x); fprintf(out, " -> ");
                 if (u.res_u64) put_u((u64)o); else put_s(o);
